@@ -103,11 +103,13 @@ def run_ops(ulines, lines):
     return impl, res
 
 
-def oracle_c01(ulines, lines, meta):
-    """replay; after every mutating line compare with the from-scratch build"""
+def oracle_c01(ulines, lines, meta, every=6):
+    """replay; after every [every]-th mutating line and at the end compare with the from-scratch build"""
     impl = eng_impl.Impl()
     for l in ulines:
         impl.run(l)
+    muts = 0
+    last = -1
     for k, l in enumerate(lines):
         r = impl.run(l)
         if 'ZeroDivisionError' in r:
@@ -115,11 +117,19 @@ def oracle_c01(ulines, lines, meta):
         if r.startswith('exn Internal'):
             return dict(fails='internal error %s at %r' % (r, l), upto=k)
         if l.split()[0] in ('get', 'read', 'keys', 'effects', 'item', 'fitdump', 'regs', 'counters', 'new',
-                             'fit', 'solsys'):
+                             'fit', 'solsys', 'spec'):
+            continue
+        muts += 1
+        last = k
+        if muts % every:
             continue
         why = mirror_check(impl, meta, ulines)
         if why:
             return dict(fails=why, upto=k)
+    if last >= 0:
+        why = mirror_check(impl, meta, ulines)
+        if why:
+            return dict(fails=why, upto=len(lines) - 1)
     return None
 
 
